@@ -42,3 +42,21 @@ func LexTokens(data []byte) (toks []LexToken, comments []Comment, ok bool) {
 	}
 	return toks, in.comments, true
 }
+
+// LineLess exposes the three block-sorting comparators (kind "line", "exclude"
+// or "retract") on lines given by their tokens.
+func LineLess(kind string, a, b []string) bool {
+	la, lb := &Line{Token: a}, &Line{Token: b}
+	switch kind {
+	case "exclude":
+		return lineExcludeLess(la, lb)
+	case "retract":
+		return lineRetractLess(la, lb)
+	}
+	return lineLess(la, lb)
+}
+
+// CheckCanonicalVersion exposes checkCanonicalVersion.
+func CheckCanonicalVersion(path, vers string) error {
+	return checkCanonicalVersion(path, vers)
+}
